@@ -1365,7 +1365,7 @@ def k_find_deprecation(R, ndir, nargs):
 
 # ---------------------------------------------------------------- C06: validation kernels
 
-def abstract_schema(B, st, prefix, members=None):
+def abstract_schema(B, st, prefix, members=None, obj_names=('O0', 'O1')):
     """2 objects, 1 interface, 1 union; `implements` and union membership are symbolic bits
     (with `members` = concrete list of bools the union's variant list is built exactly)"""
     impl = [z3.Bool(f'{prefix}impl{o}') for o in range(2)]
@@ -1374,7 +1374,7 @@ def abstract_schema(B, st, prefix, members=None):
     for o in range(2):
         # implements_interfaces: Vec<InterfaceId> of symbolic content: [I0] or [I9] (an id that is not I0)
         iid = z3.If(impl[o], bv(0, 64), bv(9, 64))
-        objs.append(B.struct('StoredObject', name=StrV(f'O{o}'), fields=VecV(()), implements_interfaces=VecV([B.newtype('InterfaceId', iid)])))
+        objs.append(B.struct('StoredObject', name=StrV(obj_names[o]), fields=VecV(()), implements_interfaces=VecV([B.newtype('InterfaceId', iid)])))
     iface = B.struct('StoredInterface', name=StrV('I0'), fields=VecV(()))
     # union variants: Object(0) or Object(7) (not a member) per slot
     if members is None:
@@ -1784,9 +1784,14 @@ def k_abstract_selection(R, S):
     fr_on = [z3.BitVec(f'as_on{k}', 8) for k in (1, 2)]        # F1 / F2: 0 -> O0, 1 -> O1, 2 -> the abstract type itself
     pkind = z3.BitVec('as_parent', 8)                          # 2 interface, 3 union
     other = z3.Bool('as_other_variant')
+    norms = R.L.enums['Normalization']
+    norm = z3.BitVec('as_norm', 8)
+    # one object type whose name a naming convention would change (`o0` -> `O0`) and one it leaves alone
+    ON = ABSTRACT_OBJ_NAMES
 
     def setup(st, B):
-        schema, sv = abstract_schema(B, st, 'as_', members=holder['members'])
+        schema, sv = abstract_schema(B, st, 'as_', members=holder['members'], obj_names=ON)
+        st.pc.append(z3.ULT(norm, len(norms)))
         # add the leaf field the selections refer to
         tid_s = B.variant('TypeId', 'Scalar', B.newtype('ScalarId', bv(0, 64)))
         leaf = B.struct('StoredField', name=StrV('leaf'), type=B.struct('StoredFieldType', id=tid_s, qualifiers=VecV(())),
@@ -1833,7 +1838,7 @@ def k_abstract_selection(R, S):
             frags.append(B.struct('ResolvedFragment', name=StrV(f'F{k + 1}'), on=obj_or_parent(fr_on[k]), selection_set=VecV(())))
         q = B.struct('Query', fragments=VecV(frags), operations=VecV(()), selection_parent_idx=B.btreemap(parents), selections=VecV(selections), variables=VecV(()))
         bq = B.cell(B.struct('BoundQuery', query=B.cell(q), schema=B.cell(schema)))
-        opts = B.cell(options_value(B, fragments_other_variant=other))
+        opts = B.cell(options_value(B, fragments_other_variant=other, normalization=SymEnum(norm, {i: () for i in range(len(norms))})))
         R.vm.push_call(st, f, [B.newtype('ResolvedFragmentId', bv(0, 32)), opts, bq], None, None)
     all_outs = []
     for members in ([True, True], [True, False], [False, True]):
@@ -1842,7 +1847,7 @@ def k_abstract_selection(R, S):
         all_outs += [(o_, holder['sv']) for o_ in outs_m]
     ES = R.L.structs.get('ExpandedSelection')
     EV, EF, TA = R.L.structs.get('ExpandedVariant'), R.L.structs.get('ExpandedField'), R.L.structs.get('TypeAlias')
-    menv = dict(sk=sk, st_obj=st_obj, st_fr=st_fr, fr_on=fr_on, pkind=pkind, other=other, S=S, i_field=i_field, i_inline=i_inline, i_spread=i_spread, i_typename=i_typename)
+    menv = dict(norm=norm, norms=norms, sk=sk, st_obj=st_obj, st_fr=st_fr, fr_on=fr_on, pkind=pkind, other=other, S=S, i_field=i_field, i_inline=i_inline, i_spread=i_spread, i_typename=i_typename)
     for o, sv in all_outs:
         if o.kind != 'return':
             if o.kind == 'panic':
@@ -1866,11 +1871,11 @@ def k_abstract_selection(R, S):
         poss = [z3.If(pkind == 2, sv['impl'][ob], sv['memb'][ob]) for ob in range(2)]
         # variants: exactly the possible types (by schema name) + Unknown iff the option
         for ob in range(2):
-            n_named = sum(1 for v in root_variants if sname(v.fields[EV.index('name')]).s == f'O{ob}')
+            n_named = sum(1 for v in root_variants if sname(v.fields[EV.index('name')]).s == ON[ob])
             claims[f'C03:variant-for-O{ob}'] = z3.If(poss[ob], z3.BoolVal(n_named == 1), z3.BoolVal(n_named == 0))
         n_unknown = sum(1 for v in root_variants if sname(v.fields[EV.index('name')]).s == 'Unknown')
         claims['C03:unknown-variant'] = z3.If(other, z3.BoolVal(n_unknown == 1), z3.BoolVal(n_unknown == 0))
-        known_names = {'O0', 'O1', 'Unknown'}
+        known_names = set(ON) | {'Unknown'}
         claims['C09:variant-names-are-schema-names'] = z3.BoolVal(all(isinstance(sname(v.fields[EV.index('name')]).s, str) and sname(v.fields[EV.index('name')]).s in known_names for v in root_variants))
         for v in root_variants:
             if sname(v.fields[EV.index('name')]).s == 'Unknown':
@@ -1881,7 +1886,7 @@ def k_abstract_selection(R, S):
             targets_spread = [z3.And(sk[s] == i_spread, z3.Or(*[z3.And(st_fr[s] == k + 1, fr_on[k] == ob) for k in range(2)])) for s in range(S)]
             n_inline = z3.Sum([z3.If(c, 1, 0) for c in targets_inline])
             n_spread = z3.Sum([z3.If(c, 1, 0) for c in targets_spread])
-            vs = [v for v in root_variants if sname(v.fields[EV.index('name')]).s == f'O{ob}']
+            vs = [v for v in root_variants if sname(v.fields[EV.index('name')]).s == ON[ob]]
             if not vs:
                 continue
             vt = vs[0].fields[EV.index('variant_type')]
@@ -1910,9 +1915,14 @@ def k_abstract_selection(R, S):
         m = R.prove('abstract_selection', o, z3.And(*claims.values()), 'variants of an abstract selection')
         if m is not None:
             failing = [nm for nm, c in claims.items() if not z3.is_true(m.eval(c, model_completion=True))]
-            out.append(dict(kernel='abstract_selection', prop=failing[0].split(':')[0] if failing else 'C01', what=failing[0] if failing else '?',
-                            model=abstract_model(m, dict(menv, sv=sv)),
-                            variants=[(sname(v.fields[EV.index('name')]).s, repr(v.fields[EV.index('variant_type')])[:60]) for v in root_variants]))
+            mdl = abstract_model(m, dict(menv, sv=sv))
+            vdesc = [(str(sname(v.fields[EV.index('name')]).s)[:40], repr(v.fields[EV.index('variant_type')])[:60]) for v in root_variants]
+            # one candidate per property that has a failing claim in this model (C01 / C03 / C09 share the kernel)
+            per_prop = {}
+            for nm in failing or ['C01:?']:
+                per_prop.setdefault(nm.split(':')[0], nm)
+            for pr, nm in per_prop.items():
+                out.append(dict(kernel='abstract_selection', prop=pr, what=nm, model=mdl, variants=vdesc))
     R.sample(dict(kernel='abstract_selection', selections=S, paths=len(all_outs)))
     return out
 
@@ -1921,6 +1931,9 @@ def str_same(a, b):
     if isinstance(a.s, str) and isinstance(b.s, str):
         return a.s == b.s
     return z3.is_true(simp(a.z() == b.z()))
+
+
+ABSTRACT_OBJ_NAMES = ('o0', 'O1')
 
 
 def abstract_model(m, env):
@@ -1940,7 +1953,8 @@ def abstract_model(m, env):
     on = lambda c: ['O0', 'O1', 'PARENT'][ev(c).as_long()]
     return dict(parent='interface' if ev(env['pkind']).as_long() == 2 else 'union', selections=sels, F1_on=on(env['fr_on'][0]), F2_on=on(env['fr_on'][1]),
                 implements=[z3.is_true(ev(x)) for x in env['sv']['impl']], members=[z3.is_true(ev(x)) for x in env['sv']['memb']],
-                fragments_other_variant=z3.is_true(ev(env['other'])))
+                fragments_other_variant=z3.is_true(ev(env['other'])), obj_names=list(ABSTRACT_OBJ_NAMES),
+                normalization=env['norms'][ev(env['norm']).as_long()] if 'norm' in env else 'None')
 
 
 # ---------------------------------------------------------------- C06: query::resolve end to end on document templates
